@@ -3,6 +3,7 @@
 package main
 
 import (
+	"encoding/json"
 	"fmt"
 	"os"
 	"os/exec"
@@ -86,8 +87,22 @@ func main() {
 		rc := vchild(env, filepath.Join(scratch, name), append(append([]string{}, tier...), "race")...)
 		if rc != 0 && rc != 66 {
 			b, _ := os.ReadFile(filepath.Join(scratch, name))
-			fmt.Fprintln(os.Stderr, string(b))
-			vlib.Fatal("race pass failed with exit code %d", rc)
+			log := string(b)
+			at := strings.Index(log, "panic:")
+			if at < 0 {
+				at = strings.Index(log, "fatal error:")
+			}
+			if at < 0 {
+				fmt.Fprintln(os.Stderr, log)
+				vlib.Fatal("race pass failed with exit code %d", rc)
+			}
+			// the renders crashed when running freely: a verdict, reported by the main run
+			tail := strings.Split(log[at:], "\n")
+			if len(tail) > 25 {
+				tail = tail[:25]
+			}
+			js, _ := json.Marshal(map[string]any{"crashed": strings.Join(tail, "\n"), "dev_mode": dev})
+			os.WriteFile(filepath.Join(scratch, strings.TrimSuffix(name, ".log")), js, 0o644)
 		}
 	}
 	// 2. development-mode exploration
